@@ -12,6 +12,8 @@ use axelar_gateway::types::Message;
 use axelar_soroban_std::types::Token;
 use example::{Example, ExampleClient};
 use proptest::prelude::*;
+#[allow(unused_imports)]
+use crate::prop_oneof;
 use serde::{Deserialize, Serialize};
 use soroban_sdk::token::TokenClient;
 use soroban_sdk::{Address, Bytes, BytesN, IntoVal, Symbol, Val, Vec as SVec};
